@@ -85,8 +85,10 @@ def hddma_spec(xs, ad, aw, two, m_min):
             yield (False, w)
 
 
-def hddmw_spec(xs, ad, aw, two, lam, m_min):
-    """zero-initialised EWMAs; McDiarmid bound sqrt((b1+b2) ln(1/alpha)/2), strict >."""
+def hddmw_spec(xs, ad, aw, two, lam, m_min, cut_conf=None):
+    """zero-initialised EWMAs; McDiarmid bound sqrt((b1+b2) ln(1/alpha)/2), strict >.  `cut_conf`: the confidence of the bound that tracks the running cut
+    points - the property does not fix it (the implementation uses lambda_, the paper and MOA the drift confidence); default lambda_."""
+    cc = lam if cut_conf is None else cut_conf
     def fresh():
         return [0.0, 1.0]
 
@@ -103,7 +105,7 @@ def hddmw_spec(xs, ad, aw, two, lam, m_min):
     tot, i1, i2, ic, d1, d2, dc = reset()
     for t, v in enumerate(xs, 1):
         upd(tot, v)
-        e = bound(tot[1], lam)
+        e = bound(tot[1], cc)
         if ic != math.inf and near(tot[0] + e, ic):
             yield None
             return
@@ -140,6 +142,22 @@ def hddmw_spec(xs, ad, aw, two, lam, m_min):
             yield (False, warning)
 
 
+def explained_by_other_cut_confidence(cls, p, xs):
+    """Is the implementation's whole verdict trace on `xs` the McDiarmid rule with the running cut points tracked at the drift or the warning confidence (the choices of
+    Frias-Blanco et al. / MOA) instead of lambda_?  Returns the name of that confidence or None."""
+    fp = dets.full_params(cls, p)
+    d = dets.make(cls, p)
+    got = []
+    for x in xs:
+        d.update(value=x)
+        got.append(dets.flags(cls, d))
+    for name in ("alpha_d", "alpha_w"):
+        want = list(hddmw_spec(xs, fp["alpha_d"], fp["alpha_w"], fp["two_sided_test"], fp["lambda_"], fp["min_num_instances"], cut_conf=fp[name]))
+        if None not in want and want == got:
+            return name
+    return None
+
+
 def check_spec(out, cls, p, xs, runners, label=""):
     fp = dets.full_params(cls, p)
     r = dets.Runner("a", cls, p)
@@ -158,8 +176,14 @@ def check_spec(out, cls, p, xs, runners, label=""):
         got = dets.flags(cls, r.det)
         flagged = flagged or any(got)
         if got != want:
-            out.violation(f"{label}{cls}: verdict at step {t} is {got}, the {'Hoeffding' if cls == 'HDDMA' else 'McDiarmid'} rule gives {want}",
-                          {"class": cls, "params": p, "stream": xs[:t], "step": t, "kind": "spec"})
+            rep = {"class": cls, "params": p, "stream": xs[:t], "step": t, "kind": "spec"}
+            other = cls == "HDDMW" and explained_by_other_cut_confidence(cls, p, xs[:t])
+            if other:
+                # the verdict rule of the property holds with another admissible definition of the running cut point than the model's: correspondence, not the property
+                out.mismatch(f"{label}{cls}: verdicts up to step {t} follow the McDiarmid rule with the cut points tracked at confidence {other} "
+                             f"(the model tracks them at lambda_; the property does not fix that confidence)", rep)
+            else:
+                out.violation(f"{label}{cls}: verdict at step {t} is {got}, the {'Hoeffding' if cls == 'HDDMA' else 'McDiarmid'} rule gives {want}", rep)
             break
     runners.append(r)
     out.case({"class": cls, "params": p, "n": len(xs), "h": hash(tuple(xs)) & 0xFFFFFF}, nontrivial=flagged)
@@ -263,8 +287,12 @@ def check_default_positions(out: Outcome, runners: list) -> None:
             if r.det.drift and got is None:
                 got = t
         if got != want:
-            out.violation(f"HDDM-W (defaults, two_sided_test={two_sided}) on {int(first)}^30 {int(1 - first)}^60: first drift at {got}, the position proved for the model is {want}",
-                          {"class": "HDDMW", "params": {"two_sided_test": two_sided}, "stream": [first] * 30 + [1.0 - first] * 60, "kind": "default-positions"})
+            stream = [first] * 30 + [1.0 - first] * 60
+            other = explained_by_other_cut_confidence("HDDMW", {"two_sided_test": two_sided}, stream)
+            (out.mismatch if other else out.violation)(
+                f"HDDM-W (defaults, two_sided_test={two_sided}) on {int(first)}^30 {int(1 - first)}^60: first drift at {got}, the position proved for the model is {want}"
+                + (f" (the trace is the McDiarmid rule with the cut points tracked at confidence {other}, which the property does not exclude)" if other else ""),
+                {"class": "HDDMW", "params": {"two_sided_test": two_sided}, "stream": stream, "kind": "default-positions"})
         runners.append(r)
         out.case({"class": "HDDMW", "default_positions": True, "two_sided": two_sided, "first": first}, nontrivial=True)
 
